@@ -562,6 +562,11 @@ def check_effect_roles(fx, rep, dm):
                     sites.append(c)
             elif c.get("k") == "Call" and F.strip_generics(F.callee_def(c) or "").split("::")[-1] == sink:
                 sites.append(c)
+        if "::" not in sink:
+            # the sink is a helper of the instruction's module that was read in place: the call site is the inlined block
+            for blk, _ in F.walk(root):
+                if blk.get("k") == "Block" and F.strip_generics(str(blk.get("inlined_from") or "")).split("::")[-1] == sink:
+                    sites.append({"k": "Call", "args": F.INLINED_ARGS.get(blk.get("inlined_id"), []), "span": blk.get("span")})
         n += 1
         if not sites:
             rep.oblige(False, "R07.2", f"effect:{mn}:{sink}", F.loc(b["span"]), f"{mn} must perform `{sink}`; its implementation does not call it")
